@@ -175,4 +175,217 @@ theorem subv_subv (d a b : List K) : subv (subv d a) b = subv d (addv a b) := by
       | nil => simp
       | cons z v => simp only [List.zipWith_cons_cons, ih]; congr 1; ring
 
+
+/-! ### entry-wise formulas: cumulative sums, the cumulative-sum ("sparse") vertical product -/
+
+theorem cumsum_getElem (x : List K) (j : Nat) (h : j < (cumsum x).length) :
+    (cumsum x)[j] = (x.take (j + 1)).sum := by
+  have hj : j < x.length := by simpa [cumsum] using h
+  have := cumsumFrom_getElem? (0 : K) x j
+  rw [if_pos hj, zero_add] at this
+  exact (List.getElem_eq_iff h).2 this
+
+theorem rcumsum_getElem (x : List K) (j : Nat) (h : j < (rcumsum x).length) :
+    (rcumsum x)[j] = (x.drop j).sum := by
+  have hj : j < x.length := by simpa using h
+  have := rcumsum_getElem? x j
+  rw [if_pos hj] at this
+  exact (List.getElem_eq_iff h).2 this
+
+theorem sum_drop_eq (x : List K) (r : Nat) (h : r < x.length) :
+    (x.drop r).sum = x[r] + (x.drop (r + 1)).sum := by
+  rw [List.drop_eq_getElem_cons h, List.sum_cons]
+
+theorem sum_split_at (x : List K) (r : Nat) (h : r < x.length) :
+    x.sum = (x.take r).sum + x[r] + (x.drop (r + 1)).sum := by
+  rw [← List.sum_take_add_sum_drop x r, sum_drop_eq x r h]; ring
+
+/-- two lists proportional entry by entry have proportional sums -/
+theorem sum_eq_mul_sum (c : K) (a b : List K) (hl : a.length = b.length)
+    (h : ∀ i (h1 : i < a.length) (h2 : i < b.length), a[i] = c * b[i]) : a.sum = c * b.sum := by
+  have : a = smul c b := by
+    apply List.ext_getElem
+    · simp [smul, hl]
+    · intro i h1 h2
+      simp only [smul, List.getElem_map]
+      exact h i h1 (by omega)
+  rw [this, sum_smul]
+
+omit [Field K] in
+theorem cons_tail_getElem (a : K) (l : List K) (r : Nat) (h : r < (a :: l.tail).length)
+    (hl : r < l.length) : (a :: l.tail)[r] = if r = 0 then a else l[r] := by
+  cases r with
+  | zero => simp
+  | succ r => simp
+
+omit [Field K] in
+theorem dropLast_append_getElem (a : K) (l : List K) (r : Nat) (h : r < (l.dropLast ++ [a]).length)
+    (hl : r < l.length) : (l.dropLast ++ [a])[r] = if r + 1 = l.length then a else l[r] := by
+  by_cases hr : r + 1 = l.length
+  · rw [if_pos hr, List.getElem_append_right (by simp; omega)]
+    simp
+  · rw [if_neg hr, List.getElem_append_left (by simp; omega)]
+    simp
+
+/-- the cumulative-sum product with the guard resolved: `up`, `diag`, `down` weights, cumulative
+ sums of `x`, diagonal term on `y` -/
+def sparseCore (up diag down x y : List K) : List K :=
+  addv (addv (mulv up (subv (cumsum x) x)) (mulv diag y)) (mulv down (subv (rcumsum x) x))
+
+theorem sparseCore_length (n : Nat) (up diag down x y : List K) (h1 : up.length = n)
+    (h2 : diag.length = n) (h3 : down.length = n) (h4 : x.length = n) (h5 : y.length = n) :
+    (sparseCore up diag down x y).length = n := by
+  simp [sparseCore, addv, mulv, subv, cumsum, h1, h2, h3, h4, h5]
+
+theorem sparseCore_getElem (n : Nat) (up diag down x y : List K) (h1 : up.length = n)
+    (h2 : diag.length = n) (h3 : down.length = n) (h4 : x.length = n) (h5 : y.length = n)
+    (r : Nat) (hr : r < n) (h : r < (sparseCore up diag down x y).length) :
+    (sparseCore up diag down x y)[r]
+      = up[r] * (x.take r).sum + diag[r] * y[r] + down[r] * (x.drop (r + 1)).sum := by
+  simp only [sparseCore, addv, mulv, subv, List.getElem_zipWith, cumsum_getElem, rcumsum_getElem]
+  rw [List.sum_take_succ x r (by omega), sum_drop_eq x r (by omega)]
+  ring
+
+/-- the guard `down.any (· ≠ 0)` only skips a term that is zero -/
+theorem guard_irrelevant (nz : K → Bool) (hnz : ∀ v, nz v = true ↔ v ≠ 0) (res down e : List K)
+    (h1 : res.length ≤ down.length) (h2 : res.length ≤ e.length) :
+    (if down.any nz then addv res (mulv down e) else res) = addv res (mulv down e) := by
+  split
+  · rfl
+  · rename_i hg
+    have hz : ∀ v ∈ down, v = 0 := by
+      intro v hv
+      have := (List.any_eq_false.1 (by simpa using hg)) v hv
+      by_contra hne
+      exact this ((hnz v).2 hne)
+    apply List.ext_getElem
+    · simp [addv, mulv]; omega
+    · intro i h3 h4
+      simp only [addv, mulv, List.getElem_zipWith]
+      rw [hz _ (List.getElem_mem _)]
+      ring
+
+/-- matrix given by its entries -/
+def mkMat (n : Nat) (e : Nat → Nat → K) : List (List K) :=
+  (List.range n).map fun r => (List.range n).map fun s => e r s
+
+theorem hMatrix_eq_mkMat (ds T al : List K) (kappa : K) :
+    hMatrix ds T al kappa = mkMat ds.length (hEntry ds T al kappa) := rfl
+
+theorem negMat_mkMat (n : Nat) (e : Nat → Nat → K) :
+    negMat (mkMat n e) = mkMat n fun r s => -e r s := by
+  simp [negMat, mkMat, Function.comp_def]
+
+omit [Field K] in
+@[simp] theorem mkMat_length (n : Nat) (e : Nat → Nat → K) : (mkMat n e).length = n := by
+  simp [mkMat]
+
+theorem colOf_mkMat (n : Nat) (e : Nat → Nat → K) (c : Nat) (hc : c < n) :
+    colOf (mkMat n e) c = (List.range n).map fun r => e r c := by
+  simp [colOf, mkMat, Function.comp_def, List.getD_eq_getElem?_getD, hc]
+
+theorem diagOf_mkMat (n : Nat) (e : Nat → Nat → K) :
+    diagOf (mkMat n e) = (List.range n).map fun r => e r r := by
+  unfold diagOf
+  rw [mkMat_length]
+  apply List.map_congr_left
+  intro r hr
+  have hr' : r < n := List.mem_range.1 hr
+  simp [mkMat, List.getD_eq_getElem?_getD, hr']
+
+theorem scaled_mkMat (ds : List K) (e : Nat → Nat → K) :
+    ((mkMat ds.length e).map fun row => List.zipWith (fun v t => v / t) row ds)
+      = mkMat ds.length fun r s => e r s / ds.getD s 0 := by
+  unfold mkMat
+  rw [List.map_map]
+  apply List.map_congr_left
+  intro r _
+  apply List.ext_getElem
+  · simp
+  · intro s h1 h2
+    have hs : s < ds.length := by simpa using h2
+    simp [List.getD_eq_getElem?_getD, hs]
+
+/-- **Cumulative-sum product = dense product**, abstractly: if, row by row, the matrix entries
+ times `d` are `up[r]·x[s]` left of the diagonal, `diag[r]·y[r]` on it and `down[r]·x[s]` right of
+ it, the cumulative-sum form computes the matrix–vector product. -/
+theorem sparseCore_eq_matvec (n : Nat) (e : Nat → Nat → K) (up diag down x y d : List K)
+    (h1 : up.length = n) (h2 : diag.length = n) (h3 : down.length = n) (h4 : x.length = n)
+    (h5 : y.length = n) (h6 : d.length = n)
+    (hup : ∀ r s (_ : s < r) (hr : r < n), e r s * d[s] = up[r] * x[s])
+    (hdiag : ∀ r (hr : r < n), e r r * d[r] = diag[r] * y[r])
+    (hdown : ∀ r s (_ : r < s) (hs : s < n), e r s * d[s] = down[r] * x[s]) :
+    sparseCore up diag down x y = matvec (mkMat n e) d := by
+  apply List.ext_getElem
+  · rw [sparseCore_length n _ _ _ _ _ h1 h2 h3 h4 h5]; simp
+  · intro r hr1 hr2
+    have hr : r < n := by simpa using hr2
+    rw [sparseCore_getElem n _ _ _ _ _ h1 h2 h3 h4 h5 r hr]
+    simp only [matvec, mkMat, List.getElem_map, List.getElem_range]
+    have hzl : (mulv ((List.range n).map fun s => e r s) d).length = n := by simp [mulv, h6]
+    have hz : ∀ s (hs : s < (mulv ((List.range n).map fun s => e r s) d).length),
+        (mulv ((List.range n).map fun s => e r s) d)[s] = e r s * d[s]'(by omega) := by
+      intro s hs
+      simp [mulv]
+    rw [sum_split_at (mulv ((List.range n).map fun s => e r s) d) r (by omega), hz r (by omega),
+      hdiag r hr]
+    congr 1
+    · congr 1
+      symm
+      apply sum_eq_mul_sum
+      · simp [hzl, h4]
+      · intro i hi1 hi2
+        have hi : i < r := by rw [List.length_take] at hi1; omega
+        rw [List.getElem_take, List.getElem_take, hz i (by omega)]
+        exact hup r i hi hr
+    · symm
+      apply sum_eq_mul_sum
+      · simp [hzl, h4]
+      · intro i hi1 hi2
+        have hi : r + 1 + i < n := by rw [List.length_drop, hzl] at hi1; omega
+        rw [List.getElem_drop, List.getElem_drop, hz _ (by omega)]
+        exact hdown r (r + 1 + i) (by omega) hi
+
+/-! ### shapes of `G`, `H`, `α` -/
+
+@[simp] theorem geoOffDiag_length (R p : K) (l : List K) : (geoOffDiag R p l).length = l.length := by
+  induction l generalizing p with
+  | nil => rfl
+  | cons a t ih => simp [geoOffDiag, ih]
+
+@[simp] theorem geopotentialWeights_length (R : K) (al : List K) :
+    (geopotentialWeights R al).length = al.length := by
+  induction al with
+  | nil => rfl
+  | cons a t ih => simp [geopotentialWeights, ih]
+
+theorem geopotentialWeights_row_length (R : K) (al : List K) :
+    ∀ r ∈ geopotentialWeights R al, r.length = al.length := by
+  induction al with
+  | nil => simp [geopotentialWeights]
+  | cons a t ih =>
+    intro r hr
+    simp only [geopotentialWeights, List.mem_cons, List.mem_map] at hr
+    rcases hr with rfl | ⟨r', hr', rfl⟩
+    · simp
+    · simp [ih r' hr']
+
+@[simp] theorem sigmaRatios_length (lc : List K) : (sigmaRatios lc).length = lc.length := by
+  induction lc with
+  | nil => rfl
+  | cons l t ih =>
+    cases t with
+    | nil => rfl
+    | cons l1 r => simp only [sigmaRatios, List.length_cons] at ih ⊢; rw [ih]
+
+@[simp] theorem hMatrix_length (ds T al : List K) (kappa : K) :
+    (hMatrix ds T al kappa).length = ds.length := by simp [hMatrix]
+
+theorem hMatrix_row_length (ds T al : List K) (kappa : K) :
+    ∀ r ∈ hMatrix ds T al kappa, r.length = ds.length := by
+  intro r hr
+  simp only [hMatrix, List.mem_map] at hr
+  obtain ⟨_, _, rfl⟩ := hr
+  simp
+
 end Dino.Implicit
